@@ -147,7 +147,6 @@ def _dict_comp(ex: Exec, node: ast.DictComp, gen, it: IterAbs, j) -> SV:
     # element producing that key.  For the common shape `k: f(k, src[k]) for k, .. in src.items()`
     # keys are the source keys themselves, so the definition is functional.
     ex.assume(z3.ForAll([e], z3.Select(dom, e) == z3.Exists([j], z3.And(rng, k.t == e))))
-    ex.assume(z3.ForAll([j], z3.Implies(rng, z3.Select(mp, k.t) == v.t)))
     ex.assume(z3.ForAll([e], z3.Contains(ks, z3.Unit(e)) == z3.Select(dom, e)))
     ex.assume(z3.Length(ks) <= it.n)
     tgt0 = gen.target.elts[0] if isinstance(gen.target, ast.Tuple) else gen.target
@@ -157,12 +156,18 @@ def _dict_comp(ex: Exec, node: ast.DictComp, gen, it: IterAbs, j) -> SV:
         and isinstance(node.key, ast.Name)
         and node.key.id == tgt0.id
     )
-    if not own_key:
-        # two source elements could produce the same key with different values,
-        # which would make the definition above contradictory
-        raise Unsupported(f"dict comprehension whose key is not the iterated dict's key (line {ex.cur_line})")
-    if not gen.ifs:
-        ex.assume(ks == ex.seq(it.keys_of))
+    if own_key:
+        ex.assume(z3.ForAll([j], z3.Implies(rng, z3.Select(mp, k.t) == v.t)))
+        if not gen.ifs:
+            ex.assume(ks == ex.seq(it.keys_of))
+    else:
+        # two source elements may produce the same key: the LAST one wins (Python semantics);
+        # the key order (first occurrences) is left unspecified beyond membership
+        j2 = z3.Int(f"j2!{ex.counter}")
+        k2 = z3.substitute(k.t, (j, j2))
+        rng2 = z3.substitute(rng, (j, j2))
+        last = z3.ForAll([j2], z3.Implies(z3.And(rng2, j2 > j), k2 != k.t))
+        ex.assume(z3.ForAll([j], z3.Implies(z3.And(rng, last), z3.Select(mp, k.t) == v.t)))
     ex.wr("seq", oid, ks)
     ex.wr("dmap", oid, mp)
     ex.wr("ddom", oid, dom)
